@@ -68,8 +68,10 @@ def main():
         r = sh("git -C /repo worktree add --detach %s HEAD" % wt)
         assert r.returncode == 0, r.stderr
         shutil.copy("/repo/dimarray/_version.py", wt + "/dimarray/_version.py")
-        shutil.copy(a.demo, wt + "/_demo.py")
-        env = dict(os.environ, PYTHONPATH=wt)
+        import re
+        # demos written by the sub-agents may assert that dimarray is imported from THEIR worktree path: point them at this one
+        open(wt + "/_demo.py", "w").write(re.sub(r"/tmp/wt-C\d+[a-z]?", wt, open(a.demo).read()))
+        env = dict(os.environ, PYTHONPATH=os.path.join(VERIF, "mc", "standin") + os.pathsep + wt)   # netCDF4 stand-in for demos that need it
         d0 = sh(["/venv/bin/python", "_demo.py"], cwd=wt, env=env)
         out["demo_clean_exit"] = d0.returncode
         ap_ = sh("git -C %s apply %s" % (wt, os.path.abspath(a.patch)))
